@@ -1,0 +1,10 @@
+//go:build !verif
+// +build !verif
+
+// Package failpoint marks the places where the process issues a durable write. Without the build
+// tag `verif` the marks are empty.
+package failpoint
+
+// Write is called immediately before a durable write: layer names the write path ("godb", "ethdb",
+// "autofile", "fileatomic"), name the database or file, key the record.
+func Write(layer, name string, key []byte) {}
